@@ -55,6 +55,11 @@ CONSTANTS BugNextArgNoSkip,      \* next_arg does not skip the value of a contex
           BugUseFlagAll,         \* use_flag erases every occurrence of the flag
           BugOptionalOrigState,  \* optional continues from its own input state after a missing error
           BugMissingIsOther,     \* argument reports "nothing to parse" as an other error
+          BugErrorState,         \* "none", or how a combinator hands on a missing error wrongly:
+                                 \* "sum_left" (missing + missing keeps the LEFT error's state) |
+                                 \* "sum_threads_left" (right alternative runs on the state of left's error) |
+                                 \* "sum_other_miss" (other + missing is reported as missing) |
+                                 \* "product_orig" (right component missing: the product's input state)
           BugUsage,              \* "none" | "product_drops_right" | "optional_no_brackets" |
                                  \* "flag_no_short" | "no_default"   (reference usage renderer only)
           BugNames               \* "none", or which contribution to option_names() is dropped:
@@ -312,7 +317,7 @@ Run(p, st, ctx) ==
          IF l.k # "ok" THEN l
          ELSE LET r == Run(p.r, l.st, ctx) IN
               CASE r.k = "ok" -> Ok(r.st, l.val @@ r.val, l.used \cup r.used)
-                [] r.k = "miss" -> Miss(r.st, l.used \cup r.used)
+                [] r.k = "miss" -> Miss(IF BugErrorState = "product_orig" THEN st ELSE r.st, l.used \cup r.used)
                 [] OTHER -> r
     [] p.k = "sum" ->
          (* sum_impl.hpp: left on a copy of the state; on any error right on the ORIGINAL state;
@@ -320,9 +325,10 @@ Run(p, st, ctx) ==
          LET l == Run(p.l, st, ctx) IN
          IF l.k = "ok" THEN Ok(l.st, (p.label :> [left |-> l.val]), l.used)
          ELSE IF l.k = "diverge" THEN l
-         ELSE LET r == Run(p.r, st, ctx) IN
+         ELSE LET r == Run(p.r, IF BugErrorState = "sum_threads_left" /\ l.k = "miss" THEN l.st ELSE st, ctx) IN
               CASE r.k = "ok" -> Ok(r.st, (p.label :> [right |-> r.val]), r.used)
-                [] r.k = "miss" /\ l.k = "miss" -> Miss(r.st, r.used)
+                [] r.k = "miss" /\ (l.k = "miss" \/ BugErrorState = "sum_other_miss") ->
+                     Miss(IF BugErrorState = "sum_left" /\ l.k = "miss" THEN l.st ELSE r.st, r.used)
                 [] r.k = "diverge" -> r
                 [] OTHER -> Other
     [] p.k = "commands" -> RunCommands(p, st)
@@ -384,6 +390,46 @@ ErrorKindLawIn(p, argv) ==
          [] q.k \in {"flag", "switch", "many", "unit"} -> r.k # "miss"
          [] q.k = "optional" -> r.k # "miss" /\ ((r.k = "other") <=> (Run(q.sub, st0, ctx).k = "other"))
          [] OTHER -> TRUE
+
+(* The state a result or a missing error carries (state.hpp: "the list of not yet consumed
+   arguments threaded through all sub-parsers"; missing_error.hpp: the state with which optional /
+   many / sum continue).  Law over every node q of p, run on the whole argument vector:
+     * accounted: the tokens ABSENT from the carried state are exactly the tokens with a
+       consumption event of the path taken, one event each, and the carried state keeps the
+       original order - a token consumed by an alternative of a sum that then failed can neither
+       disappear from the state nor be consumed a second time;
+     * sum (sum_decl.hpp "tries the left parser and, if that fails, the right parser";
+       detail/combine_errors_impl.hpp): missing exactly when both alternatives are missing on the
+       sum's own input state, and then with the state of the RIGHT alternative's error;
+     * product: missing exactly when the left component is missing, or it succeeds and the right
+       component is missing on the state left by it - and then with that error's state. *)
+StateIdx(st) == {st[i].idx : i \in 1..Len(st)}
+AccountedIn(r, n) ==
+  r.k \in {"ok", "miss"} =>
+    LET S == StateIdx(r.st)
+        UI == {u.idx : u \in r.used}
+    IN /\ S \cap UI = {}
+       /\ S \cup UI = 1..n
+       /\ Cardinality(UI) = Cardinality(r.used)
+       /\ \A i, j \in 1..Len(r.st) : i < j => r.st[i].idx < r.st[j].idx
+ErrorStateLawIn(p, argv) ==
+  LET ctx == Context(p)
+      st0 == InitState(argv)
+  IN \A q \in Nodes(p) :
+       LET r == Run(q, st0, ctx) IN
+       /\ AccountedIn(r, Len(argv))
+       /\ CASE q.k = "sum" ->
+                 LET a == Run(q.l, st0, ctx)
+                     b == Run(q.r, st0, ctx)
+                 IN /\ (r.k = "miss") <=> (a.k = "miss" /\ b.k = "miss")
+                    /\ r.k = "miss" => r.st = b.st
+            [] q.k = "product" ->
+                 LET a == Run(q.l, st0, ctx) IN
+                 IF a.k # "ok" THEN (r.k = "miss") <=> (a.k = "miss")
+                 ELSE LET b == Run(q.r, a.st, ctx) IN
+                      /\ (r.k = "miss") <=> (b.k = "miss")
+                      /\ r.k = "miss" => r.st = b.st
+            [] OTHER -> TRUE
 
 -----------------------------------------------------------------------------
 (* usage() and the help text - STRUCTURE only, as far as options.doxygen shows it:
@@ -539,10 +585,22 @@ ConsumedExactlyOnceIn(t, argv) ==
    consumer took the token that directly follows, in argv, a token consumed as the NAME of an
    option that the consumer's scope declares (ctx.ref above). *)
 NameOfTok(argv, i) == DashInfo[argv[i]].nm
+(* Left-to-right reading (impl/next_arg.cpp): token i is in VALUE POSITION of the scope if token
+   i-1 names an option of the scope and is not itself in value position.  A token in value
+   position that an option parser later consumes as its NAME (argv "--zed --opt v --zz - 7" for
+   product(many(argument), option --opt, option --zed): the arguments are v and 7, --opt = --zz,
+   --zed = -) makes the command line ambiguous; by the left-to-right reading "--opt" is the value
+   of "--zed" there and "v" is no option's value, so the clause is not applied to such a name
+   (round 3 audit, design observation D3 in docs/notes_C03.md; the stricter reading without this
+   exemption fails on the unchanged design for argument vectors of length >= 5). *)
+RECURSIVE ValuePos(_, _, _)
+ValuePos(argv, names, i) ==
+  i > 1 /\ DashInfo[argv[i - 1]].dash /\ NameOfTok(argv, i - 1) \in names /\ ~ValuePos(argv, names, i - 1)
 OptionValueNotPositionalIn(t, argv) ==
   t.ok =>
     \A a \in t.used : a.role \in {"arg", "cmd"} =>
-      ~\E o \in t.used : o.role = "name" /\ o.idx + 1 = a.idx /\ NameOfTok(argv, o.idx) \in a.ctx
+      ~\E o \in t.used : /\ o.role = "name" /\ o.idx + 1 = a.idx /\ NameOfTok(argv, o.idx) \in a.ctx
+                          /\ ~ValuePos(argv, a.ctx, o.idx)
 
 (* "Flags never produce an error" (options.doxygen), weaker reading: a flag or switch never
    fails for being absent or present once; the only error is the one flag_impl.hpp raises on
